@@ -206,6 +206,29 @@ def buffer_tasks(pid, tier, repo, seed, R, whats=("flush", "init", "save", "load
     return tasks
 
 
+def c05_tasks(pid, tier, repo, seed, R):
+    """C05 = the buffer functions + TRANSPARENCY: every public method of the 8 buffered classes, run from a state in
+    buffered mode, discharges the C01 / C02 / C03 / C04 / C17 obligations with the buffer's logical content L(f) in
+    the place of the resource (the buffered cases of the _load / _save contracts, proved against the real bodies)."""
+    from props import api
+    tasks = buffer_tasks(pid, tier, repo, seed, R)
+    for c in concrete_classes(R):
+        info = R["classes"][c]
+        if not info["isa"]["BufferedCollection"]:
+            continue
+        kind = info["kind"]
+        meths = [m for m, sp in api.api_of(kind).items() if not sp.get("attr")]
+        roles = (("root", None), ("nested", "dict"), ("nested", "list"))
+        for role, rk in roles:
+            tasks.append(dict(kind="api", repo=repo, seed=seed, cname=c, role=role, rootkind=rk, methods=meths,
+                              props=["C01", "C02", "C03", "C04", "C17"], rename_to="C05", buffered=True, threads=True,
+                              label=f"C05:transparency:{c}:{role}{'-in-' + rk if rk else ''}"))
+        tasks += [dict(kind="defs", repo=repo, seed=seed, cname=c, role=role, rootkind=rk, functions=["_load", "_save"],
+                       props=[pid], threads=True, label=f"C05:defs:{c}:{role}{'-in-' + rk if rk else ''}")
+                  for role, rk in roles]
+    return tasks
+
+
 def c17_tasks(pid, tier, repo, seed, R):
     return def_tasks(pid, tier, repo, seed, R) + buffer_tasks(pid, tier, repo, seed, R, ("flush", "init", "load"))
 
@@ -274,8 +297,9 @@ EXTRA["C18"] = c18_tasks
 EXTRA["C11"] = c11_tasks
 EXTRA["C12"] = c12_tasks
 EXTRA["C08"] = c08_all
-for _p in ("C05", "C06", "C07", "C15"):
+for _p in ("C06", "C07", "C15"):
     EXTRA[_p] = buffer_tasks
+EXTRA["C05"] = c05_tasks
 EXTRA["C17"] = c17_tasks
 EXTRA["C19"] = c19_tasks
 LEVEL = {"C09": "other", "C14": "other"}
